@@ -285,10 +285,11 @@ where
                 .and_then(|map| map.swap_remove(&delivery_info.delivery_tag))
         } else {
             let mut lock = self.unsettled.write();
-            // If the key is present in the map, the old value will be returned, which
-            // we don't really need
-            lock.get_or_insert(OrderedMap::new())
-                .insert(delivery_info.delivery_tag.clone(), Some(state.clone()))
+            // Only a delivery that is still unsettled is updated: one that the sender has
+            // settled in the meantime must not be put back, nothing would ever remove it
+            lock.as_mut()
+                .and_then(|map| map.get_mut(&delivery_info.delivery_tag))
+                .map(|slot| slot.replace(state.clone()))
         };
 
         // Only dispose if message is found in unsettled map
